@@ -141,6 +141,51 @@ func runC05(c *Ctx) {
 		}
 		r.Check("C05.1", "ParseSpec", ok, c.U.Pos(ps.Pos()), "ParseSpec hands its input bytes to UnmarshalStrict")
 	}
+	// strictness (unknown and duplicate keys rejected) is a property of the decoder's own walk over
+	// the struct types: a type with its own UnmarshalJSON/UnmarshalYAML/UnmarshalText takes over
+	// decoding of its part of the document and the strictness does not carry into it
+	if specT := c.U.NamedType("specs", "Spec"); specT != nil {
+		seen := map[string]bool{}
+		var custom []string
+		n := 0
+		var visit func(t types.Type)
+		visit = func(t types.Type) {
+			switch x := t.(type) {
+			case *types.Pointer:
+				visit(x.Elem())
+			case *types.Slice:
+				visit(x.Elem())
+			case *types.Array:
+				visit(x.Elem())
+			case *types.Map:
+				visit(x.Key())
+				visit(x.Elem())
+			case *types.Named:
+				if x.Obj().Pkg() == nil || !strings.HasPrefix(x.Obj().Pkg().Path(), ir.ModulePrefix) || seen[x.Obj().Name()] {
+					return
+				}
+				seen[x.Obj().Name()] = true
+				n++
+				for _, recv := range []types.Type{x, types.NewPointer(x)} {
+					ms := c.U.Prog.MethodSets.MethodSet(recv)
+					for i := 0; i < ms.Len(); i++ {
+						switch ms.At(i).Obj().Name() {
+						case "UnmarshalJSON", "UnmarshalYAML", "UnmarshalText":
+							custom = append(custom, x.Obj().Name()+"."+ms.At(i).Obj().Name())
+						}
+					}
+				}
+				visit(x.Underlying())
+			case *types.Struct:
+				for i := 0; i < x.NumFields(); i++ {
+					visit(x.Field(i).Type())
+				}
+			}
+		}
+		visit(specT)
+		sort.Strings(custom)
+		r.Check("C05.1", "no-custom-unmarshalers", len(custom) == 0 && n >= 5, c.U.Pos(specT.Obj().Pos()), fmt.Sprintf("none of the %d types a Spec document is decoded into has its own unmarshaller (found %v): the strict decoder sees every key", n, custom))
+	}
 
 	// ---- C05.2 table
 	ce := "$0.ContainerEdits."
